@@ -847,7 +847,45 @@ func classShapes(g *hx.Gen, gr *cx.G, twins [][2]int) [][][]int {
 		}
 		return out
 	}
-	shapes := [][][]int{byDeg(false), byDeg(true), singletons(true), singletons(false)}
+	// two or three classes cut out of the degree order at random thresholds: the high degrees first
+	// and a class of low-degree vertices after them, or the other way round
+	degSplit := func(desc bool) [][]int {
+		vs := make([]int, n)
+		for i := range vs {
+			vs[i] = i
+		}
+		sort.SliceStable(vs, func(a, b int) bool {
+			if desc {
+				return gr.Degree(vs[a]) > gr.Degree(vs[b])
+			}
+			return gr.Degree(vs[a]) < gr.Degree(vs[b])
+		})
+		// cut only between different degrees
+		var cuts []int
+		for i := 1; i < n; i++ {
+			if gr.Degree(vs[i]) != gr.Degree(vs[i-1]) {
+				cuts = append(cuts, i)
+			}
+		}
+		if len(cuts) == 0 {
+			return [][]int{vs}
+		}
+		k := 1 + g.Rng.Intn(2)
+		chosen := map[int]bool{}
+		for ; k > 0; k-- {
+			chosen[cuts[g.Rng.Intn(len(cuts))]] = true
+		}
+		var out [][]int
+		start := 0
+		for i := 1; i <= n; i++ {
+			if i == n || chosen[i] {
+				out = append(out, append([]int(nil), vs[start:i]...))
+				start = i
+			}
+		}
+		return out
+	}
+	shapes := [][][]int{byDeg(false), byDeg(true), singletons(true), singletons(false), degSplit(true), degSplit(true), degSplit(false)}
 	if len(twins) > 0 {
 		shapes = append(shapes, withTwins(true, false), withTwins(false, false), withTwins(false, true), withTwins(true, true))
 	}
@@ -950,7 +988,10 @@ func genHarden(g *hx.Gen) {
 	for _, s := range [][2]string{{"KOD[fB~~qOCO", "0,1,2,3,4,5,6,7,8,9|10,11"}, {"K`WkCf~~ogGO", "0,1,2,3,4,5,6,7|8,9|10,11"}, {"LaGQO]CgN~~}?g", "0,1,2,3,4,5,6,7,8,9,10,11|12"}} {
 		g.Emit("k:corpus;" + s[0] + ";cls=" + s[1] + " " + seedTok() + " count=40")
 	}
-	for i := 0; i < g.Pick(1500, 12000); i++ {
+	total := g.Pick(1500, 12000)
+	hub := g.Pick(24000, 120000)
+	for i := 0; i < total+hub; i++ {
+		forceHub := i >= total
 		var gr *cx.G
 		fam := "random"
 		switch g.Rng.Intn(5) {
@@ -968,15 +1009,73 @@ func genHarden(g *hx.Gen) {
 			gr = cx.RandomGnp(g.Rng, g.Rng.Range(3, 12), 1+g.Rng.Intn(9), 10)
 		}
 		var twins [][2]int
-		if g.Rng.Intn(3) > 0 {
+		kind := g.Rng.Intn(5)
+		if forceHub {
+			kind = 4
+		}
+		switch kind {
+		case 0:
+		case 1, 2:
 			gr, twins = addTwins(g, gr, 1+g.Rng.Intn(2))
 			fam = "twins"
+		default:
+			// a regular base, a pair of twin hubs joined to all (or to the same random part) of it, and
+			// a few low-degree vertices hanging on the base: after the refinement the twins are a
+			// cell of two vertices and the low-degree vertices come in a later cell
+			base := cx.RandomRegularSwitch(g.Rng, g.Rng.Range(6, 11), g.Rng.Range(2, 4))
+			nb := base.N
+			low := 1 + g.Rng.Intn(3)
+			h := cx.New(nb + 2 + low)
+			for i := 0; i < nb; i++ {
+				for j := 0; j < i; j++ {
+					if base.Adj[i][j] {
+						h.Add(i, j)
+					}
+				}
+			}
+			all := g.Rng.Intn(4) > 0
+			for i := 0; i < nb; i++ {
+				if all || g.Rng.Intn(3) > 0 {
+					h.Add(nb, i)
+					h.Add(nb+1, i)
+				}
+			}
+			if g.Rng.Intn(3) == 0 {
+				h.Add(nb, nb+1)
+			}
+			for x := 0; x < low; x++ {
+				for _, v := range g.Rng.Perm(nb)[:1+g.Rng.Intn(2)] {
+					h.Add(nb+2+x, v)
+				}
+			}
+			gr, twins, fam = h, [][2]int{{nb, nb + 1}}, "hubtwins"
 		}
 		shapes := classShapes(g, gr, twins)
 		cls := shapes[g.Rng.Intn(len(shapes))]
+		count := g.Pick(8, 20)
+		if fam == "hubtwins" {
+			// volume: the repaired panic shows on about one GRAPH in 4000 of this family with the
+			// low-degree vertices as the last class (hardly depending on the labelling): many graphs,
+			// few relabellings each
+			count = g.Pick(3, 4)
+			if w := g.Rng.Intn(8); w < 7 {
+				var rest, lowc []int
+				for v := 0; v < gr.N; v++ {
+					if v < twins[0][1]+1 {
+						rest = append(rest, v)
+					} else {
+						lowc = append(lowc, v)
+					}
+				}
+				cls = [][]int{rest, lowc}
+				if w == 6 {
+					cls = [][]int{lowc, rest}
+				}
+			}
+		}
 		// present the graph under a random labelling (the classes with it)
 		p := g.Rng.Perm(gr.N)
-		g.Emit("k:" + fam + ";" + gr.Relabel(p).Graph6() + ";cls=" + cx.ClassesString(cx.RelabelClasses(cls, p, 0)) + " " + seedTok() + fmt.Sprintf(" count=%d", g.Pick(8, 20)))
+		g.Emit("k:" + fam + ";" + gr.Relabel(p).Graph6() + ";cls=" + cx.ClassesString(cx.RelabelClasses(cls, p, 0)) + " " + seedTok() + fmt.Sprintf(" count=%d", count))
 	}
 	// sizes beyond 70: 8-bit counters, 64-bit masks, capacity doubling (oracle-only: few relabellings)
 	for _, n := range []int{96, 127, 128, 129, 130, 255, 256, 257, 300} {
